@@ -38,7 +38,7 @@ def worker_init():
 
 def configs():
     out = []
-    for tl in (["CAR", "PEDESTRIAN"], ["CAR", "PEDESTRIAN", "UNKNOWN"], None):
+    for tl in (["CAR", "PEDESTRIAN"], ["CAR", "PEDESTRIAN", "UNKNOWN"], None, ["PEDESTRIAN", "CAR"]):
         n = len(tl) if tl else 0
         for bounds_ in (None, "xy", "ring"):
             if bounds_ and not tl:
@@ -78,6 +78,7 @@ def units(tier, seed):
         u.append(dict(kind="results", chunk=[k, 4]))
     u.append(dict(kind="manager"))
     u.append(dict(kind="reuse"))
+    u.append(dict(kind="long"))
     return u
 
 
@@ -140,6 +141,10 @@ def run_unit(unit, acc):
                 if ln == 2 and (sel[0] + sel[1]) % 5:   # every single pair, and a fixed fifth of the ordered two-element lists
                     continue
                 check_case(dict(kind="results", pairs=[list(pairs[i]) for i in sel], seed=seed), acc)
+    elif unit["kind"] == "long":
+        for fr in ("base_link", "map"):
+            for is_gt in (False, True):
+                check_case(dict(kind="long", frame=fr, is_gt=is_gt, seed=seed), acc)
     elif unit["kind"] == "reuse":
         # one map-frame object instance filtered repeatedly while the ego pose changes
         for px in range(0, 12, 2):
@@ -233,6 +238,27 @@ def check_case(case, acc):
                     acc.violation("reuse:stale-pose", "the same map-frame object filtered under ego pose #%d (step %d of %s) is %s, the documented criteria say %s (ego-relative %.3f, %.3f; config %s)" % (
                         ei, step, case["order"], "kept" if kept else "dropped", "keep" if want else "drop", lx, ly, {a: b for a, b in c.items() if b is not None}), case)
                 acc.state(("reuse", case["lab"], case["is_gt"], step, ei, ci, kept), nontrivial=step > 0)
+    elif k == "long":
+        # a list of 96 objects (every position x every label variant), filtered under every configuration
+        ego = G.ego_menu(seed)[2]
+        specs = [_spec(pos, lab, 0.5 + 0.004 * i, 5, "u1" if i % 3 else "u2") for i, (pos, lab) in enumerate((p_, l_) for p_ in POS for l_ in LABS)]
+        objs = [G.mk3d(s_, case["frame"], ego) for s_ in specs]
+        tf = G.transforms(ego)
+        for ci, c in enumerate(CFGS):
+            if case["is_gt"] and c.get("conf") is not None:
+                continue
+            keeps = [RF.keep(s_, case["is_gt"], c) for s_ in specs]
+            if any(m < RF.BOUNDARY for _, m in keeps):
+                acc.skip("boundary")
+                continue
+            acc.exec()
+            out = filter_objects(list(objs), case["is_gt"], transforms=tf, **_kwargs(c))
+            acc.compared()
+            want = [o for o, (k_, _) in zip(objs, keeps) if k_]
+            if len(out) != len(want) or any(a is not b for a, b in zip(out, want)):
+                acc.violation("long:not-order-preserving-sublist", "a %d-object list filtered under config %s keeps %d objects, the reference keeps %d" % (
+                    len(objs), {a: b for a, b in c.items() if b is not None}, len(out), len(want)), dict(case, cfg_index=ci))
+            acc.state(("long", case["frame"], case["is_gt"], _cfg_class(c), len(out)), nontrivial=0 < len(out) < len(objs))
     elif k == "lists":
         pool = _pool()
         specs = [pool[i] for i in case["sel"]]
